@@ -171,7 +171,7 @@ def run(chk):
                 "present/absent, empty 2D cells, both calibration formats): observation = (nBytes - written, consumed - "
                 "written) for the block, nBytes of the decoded block, and (nBytes, written, consumed) of every nested "
                 "item; plus the 8 blocks of the BTS capture against their jump-table sizes; compared with the model's "
-                "(size, |enc|, consumed); also: blocks built, used (sized / encoded / compared / printed), then edited IN PLACE to another content of the same shape and used again; blocks built from arrays with the same values but another memory layout (column-major, strided, reversed, big-endian, read-only, unaligned); non-trivial = >=1 item and (a gap or >=2 items)")
+                "(size, |enc|, consumed); also: blocks built, used (sized / encoded / compared / printed), then edited IN PLACE to another content of the same shape and used again; blocks built from arrays with the same values but another memory layout (column-major, strided, reversed, big-endian, read-only, unaligned); blocks that have just refused a call (bulk assignment with a bad element, taken / out-of-range channel, wrong length, wrong kind, index out of range) and then accept one more item; non-trivial = >=1 item and (a gap or >=2 items)")
     corpus = codec.load_corpus("C02")
     check_cases(chk, corpus)
     n = 1500 if chk.tier == "quick" else 25000
@@ -186,7 +186,81 @@ def run(chk):
     codec.check_inplace(chk, "C02", 200 if chk.tier == "quick" else 3000)
     codec.check_layouts(chk, "C02", 240 if chk.tier == "quick" else 3000)
     boundary_labels(chk)
+    after_refused_calls(chk)
     check_capture(chk)
+
+
+def after_refused_calls(chk):
+    """a block that has just REFUSED a call (a bulk assignment with a bad element after good ones, a taken channel, a
+    track of the wrong length, a wrong kind of object, an index out of range) is still a valid block: its declared
+    size, the bytes it writes and the bytes its decoder consumes agree — also after one more successful add"""
+    import io
+    import numpy as np
+    from basictdf.tdfEMG import EMGTrack
+    from harness import api, c15
+    rng = common.rng_for(chk.seed, "C02-refused")
+    for trial in range(60 if chk.tier == "quick" else 600):
+        kind = ("D3", "FT", "EM", "PD", "PC")[trial % 5]
+        calls = []
+        if kind in ("D3", "FT"):
+            nfr = rng.choice((2, 5))
+            b = api.make_block(kind, nfr)
+            api.install(kind, b, [api.make_item(kind, "g%d" % i, nfr, i) for i in range(rng.randrange(0, 3))])
+            good = lambda j: api.make_item(kind, "n%d" % j, nfr, j)
+            short = api.make_item(kind, "s", nfr - 1, 3)
+            menu = [("tracks = [good, good, short]", lambda: setattr(b, "tracks", [good(1), good(2), short])),
+                    ("tracks = [good, None]", lambda: setattr(b, "tracks", [good(3), None])),
+                    ("add_track(short)", lambda: b.add_track(short)), ("add_track(7)", lambda: b.add_track(7)),
+                    ("tracks = 5", lambda: setattr(b, "tracks", 5))]
+            more = ("add_track(good)", lambda: b.add_track(good(9)))
+        else:
+            w = c15.World(kind)
+            b = c15.new_block(kind)
+            add = (lambda o, ch=None: b.addSignal(o, channel=ch)) if kind == "EM" else (lambda o, ch=None: b.add_platform(o, channel=ch))
+            for i in range(rng.randrange(0, 3)):
+                add(w.item("g%d" % i, i)[0], [3, 7, 9][i])
+            good = lambda j: w.item("n%d" % j, j)[0]
+            menu = [("add(good, channel=taken)", lambda: add(good(1), 3) if 3 in c15.state_of(kind, b)[0] else add(None)),
+                    ("add(non-item)", lambda: add(w.other()[0])), ("add(good, channel=70000)", lambda: add(good(2), 70000))]
+            if kind == "PD":
+                menu += [("platforms = [good, good, None]", lambda: setattr(b, "platforms", [good(3), good(4), None])),
+                         ("platforms = [good, 5]", lambda: setattr(b, "platforms", [good(5), 5]))]
+            if kind == "PC":
+                menu += [("platforms = [(7, good), (7, good)]", lambda: setattr(b, "platforms", [(7, good(3)), (7, good(4))])),
+                         ("add_platforms([good, None])", lambda: b.add_platforms([good(5), None])),
+                         ("add_platforms([good, good], [1, 1])", lambda: b.add_platforms([good(6), good(7)], [1, 1])),
+                         ("remove_platforms([0, 99])", lambda: b.remove_platforms([0, 99])),
+                         ("remove_platform(99)", lambda: b.remove_platform(99))]
+            if kind == "EM":
+                menu += [("removeSignal(absent)", lambda: b.removeSignal("nobody")),
+                         ("addSignal(short)", lambda: b.addSignal(EMGTrack("s", np.zeros(1, dtype="<f4"))))]
+            more = ("add(good)", lambda: add(good(9)))
+        for name, thunk in rng.sample(menu, rng.randrange(1, 3)) + [more]:
+            try:
+                thunk()
+                calls.append(name + " -> ok")
+            except Exception as e:
+                calls.append(name + " -> " + type(e).__name__)
+            chk.note_case(("after refused calls", kind, trial, len(calls)), True)
+            chk.count("sizes after a refused call: " + kind)
+            what = {"kind": kind, "calls": list(calls)}
+            try:
+                nb = int(b.nBytes)
+                f = io.BytesIO()
+                b._write(f)
+                raw = f.getvalue()
+                o2 = type(b)._build(io.BytesIO(raw + b"\xAA" * 16), b.format.value)
+            except Exception as e:
+                chk.violation("%s: after %r the block cannot be sized / written / decoded: %s" % (kind, calls, common.exc_info(e)), what, True)
+                break
+            stream = io.BytesIO(raw + b"\xAA" * 16)
+            type(b)._build(stream, b.format.value)
+            consumed = stream.tell()
+            if not (nb == len(raw) == consumed):
+                chk.violation("%s: after %r: nBytes=%d, bytes written=%d, bytes consumed=%d" % (kind, calls, nb, len(raw), consumed), what, True)
+                break
+        if chk.n_found() >= 3:
+            return
 
 
 def boundary_labels(chk):
